@@ -36,14 +36,12 @@ def groups(tier, seed):
     for fam, sym in FAM_SYMS:
         for N in ((2, 3, 4) if tier == 'quick' else (2, 3, 4, 5)):
             big = fam in ('spinful', 'tJ')
-            if big and N > (2 if tier == 'quick' else 3):
+            if big and N > 3:
                 continue
             if fam == 'spin1' and N > (3 if tier == 'quick' else 4):
                 continue
             gs.append({'kind': 'mpo', 'fam': fam, 'sym': sym, 'N': N, 'level': 1 if N <= 2 else 2})
         for N in ((3, 4, 5) if fam in ('spinless', 'spin12') else (2, 3)):
-            if tier == 'quick' and fam in ('spinful', 'tJ') and N > 2:
-                continue
             gs.append({'kind': 'measure', 'fam': fam, 'sym': sym, 'N': N, 'level': 1})
         gs.append({'kind': 'onsite', 'fam': fam, 'sym': sym, 'level': 1})
     for fam, sym in (('spinless', 'U1'), ('spinless', 'Z2'), ('spin12', 'dense'), ('spin12', 'Z2'), ('spinful', 'U1xU1')):
